@@ -11,7 +11,7 @@ ROOT = os.path.dirname(os.path.dirname(os.path.abspath(__file__)))
 
 META = {
     "C01": dict(level="exploration",
-                text="generated-input search for panics, hangs, capacity dependence and out-of-bounds views: ref-built frames of every Parse branch with structural mutators, header-biased raw bytes, every prefix of drawn frames, each parsed in three buffers (two spare-capacity fills and cap==len); every exported view type is driven by per-view encodings and all its zero-argument getters are called by reflection once IsValid accepts. Thorough adds native coverage-guided fuzzing with the same oracle",
+                text="generated-input search for panics, hangs, capacity dependence and out-of-bounds views: ref-built frames of every Parse branch with structural mutators, header-biased raw bytes, every prefix of drawn frames, each parsed in three buffers (two spare-capacity fills and cap==len); every exported view type is driven by per-view encodings and all its zero-argument getters are called by reflection once IsValid accepts; echo replies (matching, foreign, duplicated) are parsed while 1-4 pings are in flight (shared state behind Parse). Thorough adds native coverage-guided fuzzing with the same oracle",
                 note="evidence of absence only up to the generated cases; Ether.Payload() of a header-only frame returning spare capacity is the documented builder idiom and exempt; String() belongs to C20",
                 tech="property-based testing (rapid) with structure-aware mutators + bounded-exhaustive prefix sweep + native go fuzzing; oracle = no panic / no hang (watchdog) / capacity-independence / pointer-range invariant"),
     "C02": dict(level="exploration",
@@ -43,7 +43,7 @@ META = {
                 note="real-time attribution uses 1 s slack and one 6 s cycle + 2 s for the restore; the restore is not required when the handler was closed or the target re-hunted meanwhile; the loop's restoring ARP to ever-hunted MACs is allowed; the 4 s..6 s spoof period is real time so thorough depth is bounded by wall clock",
                 tech="model-based stateful property testing (rapid) of captured frames against a hunt-list model + timestamped real-time scenario batches"),
     "C14": dict(level="exploration",
-                text="(a) synchronous model of the ICMPv6 hunt list over StartHunt/StopHunt/Close/RA histories with IPv4, global, link-local and address-less targets: a step is judged when every spoof loop of the process is parked (goroutine dump), every forged neighbour advertisement (type 136, TLLA = host MAC) must go to a hunted MAC, name a learned router, carry override + hop limit 255, never precede the first router or follow Close, and their number per step is bounded by loops x routers (idempotence of StartHunt); real-time batches as in C13 with the 2.0-2.8 s cycle; (b) router advertisements are serialised from generated structures (flags, preference, hop limit, lifetimes, timers, 0-3 prefix options with bits past the prefix length, MTU, RDNSS, DNSSL, route information, SLLA, unknown types, rotated option order, up to 4 RAs from 2 routers) into a reused, afterwards poisoned receive buffer and FindRouter / LANRouters are compared field by field with the structure",
+                text="(a) synchronous model of the ICMPv6 hunt list over StartHunt/StopHunt/Close/RA histories with IPv4 (incl. 169.254/16), global, ULA, IPv4-mapped, link-local and address-less targets: a step is judged when every spoof loop of the process is parked (goroutine dump), every forged neighbour advertisement (type 136, TLLA = host MAC) must go to a hunted MAC, name a learned router, carry override + hop limit 255, never precede the first router or follow Close, and their number per step is bounded by loops x routers (idempotence of StartHunt); real-time batches as in C13 with the 2.0-2.8 s cycle; (b) router advertisements are serialised from generated structures (flags, preference, hop limit, lifetimes, timers, 0-3 prefix options with bits past the prefix length, MTU, RDNSS, DNSSL, route information, SLLA, unknown types, rotated option order, up to 4 RAs from 2 routers, incl. 'twin' RAs of equal length and checksum with swapped 16-bit fields) into a reused, afterwards poisoned receive buffer and FindRouter / LANRouters are compared field by field with the structure",
                 note="a closed handler is documented unusable: after Close the history only observes; RAs are delivered four times (the handler processes one in four); the route information option is not among the fields the statement lists: only consistency is required of it; count bounds are skipped once a case ran 1.5 s",
                 tech="model-based stateful property testing (rapid) against a hunt-list model with goroutine-quiescence detection + round-trip from generated RA structures via an independent encoder + real-time scenario batches"),
     "C19": dict(level="exploration",
@@ -63,7 +63,7 @@ META = {
                 note="termination is judged by a 20 s budget against a nominal cost below 1 ms; absence of panics/hangs is only shown for the generated cases",
                 tech="property-based testing (rapid) with protocol-aware generators + exhaustive truncation sweeps + native go fuzzing; oracle = returns without panic within the watchdog budget"),
     "C10": dict(level="exploration",
-                text="differential (metamorphic) testing: each generated packet history (host-tracking frames, DHCP handshakes, RAs with option lists, DNS/mDNS/NBNS/SSDP name traffic, ARP towards a hunted host, capture toggles, purges, lease ticks) runs twice in fresh sessions and handlers - once with ONE shared receive buffer that is overwritten after every step, once with a private buffer per packet - and after every step notifications, emitted frames (DHCP decoded), host and MAC tables, leases, IPv6 routers, DNS table and name-handler results must be identical",
+                text="differential (metamorphic) testing: each generated packet history (host-tracking frames, DHCP handshakes, RAs with option lists, DNS/mDNS/NBNS/SSDP name traffic, ARP towards a hunted host, capture toggles, purges, lease ticks) runs twice in fresh sessions and handlers - once with ONE shared receive buffer that is overwritten after every step, once with a private buffer per packet - and after every step notifications, emitted frames (DHCP decoded), host and MAC tables, leases, IPv6 routers, DNS table, the mDNS response cache (hook) and name-handler results (rendered after the buffer was overwritten; name traffic also from untracked stations, mDNS responses delivered twice) must be identical",
                 note="time stamps are not compared; frames sent by goroutines are compared as a multiset after joining the senders and a difference must reproduce three times to be reported; purge probes and the hunt loop's periodic announcements are not compared (their order depends on map iteration / scheduling)",
                 tech="property-based differential testing (rapid): shared poisoned buffer vs private buffers, transcript equality"),
     "C16": dict(level="exploration",
@@ -72,14 +72,14 @@ META = {
                 tech="property-based testing (rapid) with pointer-identity and allocation-count oracles + exhaustive port-class table"),
     "C18": dict(level="fault_enumeration",
                 text="crash-point and corruption enumeration of the DHCP lease file: ack-only histories produce lease files (snapshot after every ACK); restart on the last snapshot must reproduce exactly the acknowledged bindings (independent YAML reader and the handler's own table), acknowledge every renewal and keep bound addresses from a new client; every prefix of the file, every single-byte substitution (2/16 drawn values per offset), deletion and duplication of every line is loaded with New under the watchdog: no panic, no hang, no binding without client id or outside the home LAN, and any loaded set that is a proper subset or contains a foreign binding is classified per fault kind (listed known findings)",
-                note="a crash of the non-atomic rewrite is modelled as a prefix of the new file; restart = new session (capture state is not persistent); the 8 (outcome x fault kind) classes that the unchecksummed YAML format cannot avoid are known findings and do not fail the check",
+                note="a crash of the non-atomic rewrite is modelled as a prefix of the new file; restart = new session (capture state is not persistent); the 8 (outcome x fault kind) classes that the unchecksummed YAML format cannot avoid are known findings and do not fail the check; behind them two differential oracles against the damaged file itself (independent YAML reader) keep other loader defects visible: nothing may be loaded that is not an entry of that file, and when anything is loaded every entry of it that is valid by the loader's own rules must be",
                 tech="fault injection by exhaustive enumeration of truncation points / byte substitutions / line faults over files produced by generated histories (rapid), with a restart oracle"),
     "C11": dict(level="exploration",
                 text="model-based testing of the DHCP server against a wire-level ledger that only knows what the replies said: every message sequence to depth 4/5 over a 12-symbol alphabet for two clients on a 14-address pool (exhaustive), rapid histories of 5..80 messages (all request kinds, 11 requested-address classes, 4 client identities two of which share a chaddr, spoofed client-ids, capture toggles, +1min/+5h ticks, foreign traffic) on three prefix configurations and three modes, and a pool-exhaustion sub-check",
                 note="a client that sends DISCOVER is in INIT state and no longer holds its address (DESIGN.md C11); RELEASE is treated as freeing although the server keeps the binding - both choices make the oracle accept more; lease expiry is driven through MinuteTicker(now+5h), other time thresholds of the handler are not virtualised",
                 tech="model-based stateful property testing (rapid op lists + interpreter + ledger oracle) + bounded-exhaustive sequence enumeration"),
     "C12": dict(level="exploration",
-                text="every OFFER/ACK/NAK along the C11 histories (all three modes, three home/netfilter prefix pairs, exhaustive depth 4/5 over a 12-symbol alphabet with capture toggles and ticks) is decoded by the reference decoder and checked against the transaction: op/xid/chaddr echo, yiaddr inside the subnet selected by the capture state at that moment, mask before router, router, DNS, server id, lease time, ACK only of the offer of this transaction or the client's lease, never for must-not-ACK requests",
+                text="every OFFER/ACK/NAK along the C11 histories (all three modes, three home/netfilter prefix pairs, exhaustive depth 4/5 over a 12-symbol alphabet with capture toggles and ticks) is decoded by the reference decoder and checked against the transaction: op/xid/chaddr echo, yiaddr inside the subnet selected by the capture state at that moment, mask before router, router, DNS, server id, lease time, ACK only of the offer of this transaction or the client's lease, never for must-not-ACK requests; sub-check 'reconfigured': a second handler with another DNS server / a longer netfilter mask restarted on the first run's lease file must answer with the configuration it was given",
                 note="NAK or silence are both accepted for requests that must not be acknowledged; an offer that a tick / NAK / DECLINE may have invalidated may still be acknowledged (lenient, counted)",
                 tech="model-based stateful property testing (rapid) with a per-reply conformance oracle + bounded-exhaustive sequence enumeration"),
     "C17": dict(level="exploration",
